@@ -1,0 +1,26 @@
+//go:build verif
+
+package keeper
+
+// Contracts for the deductive verifier in /verif (govc). Comment-only; compiled only with -tags verif.
+
+//@ import sdkmath cosmossdk.io/math
+
+// ---- C31: the refund of a failed forward moves escrowed funds between the two channels' escrow accounts (or burns /
+// re-mints them) and adjusts the tracked total by exactly the change of the combined escrow balance
+
+//@ contract (*Keeper).WriteAcknowledgementForForwardedPacket
+//@   let L0 = ledger(ctx)
+//@   let denom = transferDetail.Token.Denom
+//@   let d = denom.IBCDenom()
+//@   let amount = nth(sdkmath.NewIntFromString(transferDetail.Token.Amount), 0)
+//@   let escrow = str(transfertypes.GetEscrowAddress(packet.SourcePort, packet.SourceChannel))
+//@   let refundEscrow = str(transfertypes.GetEscrowAddress(inFlightPacket.RefundPortId, inFlightPacket.RefundChannelId))
+//@   let module = moduleAddr("transfer")
+//@   let T0 = trackedTotal(world(ctx), d)
+//@   modifies world(ctx)
+//@   ensures success_ack_moves_nothing: err == nil && ack.Success() ==> ledger(ctx) == L0 && (forall x string :: trackedTotal(world(ctx), x) == old(trackedTotal(world(ctx), x)))
+//@   ensures total_follows_escrow_balances: err == nil && !ack.Success() && escrow != refundEscrow && module != escrow && module != refundEscrow ==> trackedTotal(world(ctx), d) - T0 == bal(ledger(ctx), escrow, d) + bal(ledger(ctx), refundEscrow, d) - bal(L0, escrow, d) - bal(L0, refundEscrow, d)
+//@   ensures other_totals_kept: forall x string :: err == nil && x != d ==> trackedTotal(world(ctx), x) == old(trackedTotal(world(ctx), x))
+//@   ensures only_escrow_accounts_change: forall a string, x string :: err == nil && a != escrow && a != refundEscrow ==> bal(ledger(ctx), a, x) == bal(L0, a, x)
+//@   ensures total_not_negative: err == nil && !ack.Success() ==> trackedTotal(world(ctx), d) >= 0 || trackedTotal(world(ctx), d) == T0
